@@ -386,6 +386,12 @@ class AuthHandler:
     def _parse_service_accept(self, m):
         service = m.get_text()
         if service == "ssh-userauth":
+            if self.username is None:
+                # every auth_* call sets the username before requesting the
+                # service; it is cleared again when the attempt is over
+                raise SSHException(
+                    "Received SERVICE_ACCEPT without an auth request in progress"  # noqa
+                )
             self._log(DEBUG, "userauth is OK")
             m = Message()
             m.add_byte(cMSG_USERAUTH_REQUEST)
